@@ -111,7 +111,7 @@ PROPS.update({
     "C11": {
         "technique": "bounded-exhaustive enumeration of inputs and configurations against a reference model, plus stateless controlled-scheduler exploration of the items of the data-parallel batch path",
         "needs": ["harness", "cli"],
-        "parts": [ktmc("C11"), ktmc("C11batch"), lambda tier: __import__("hist").c_env_cpus(tier, ['cgr'])],
+        "parts": [ktmc("C11"), ktmc("C11batch"), lambda tier: __import__("hist").c_env_cpus(tier, ['cgr']), lambda tier: __import__("hist").c_sink_fifo(tier, ['cgr'])],
         "rule": "every string over {A,C,G,T} up to the stated length and every mixed-case/U string up to length 5-6 x "
                 "7 square sizes, bit-exact against an exact dyadic-rational model; every string with a bad byte over "
                 "{A,C,G,T,N,x} and every byte value outside the ten letters in short contexts must be refused; long "
@@ -123,7 +123,7 @@ PROPS.update({
     "C12": {
         "technique": "bounded-exhaustive enumeration of inputs and configurations against a reference model, plus stateless controlled-scheduler exploration of the items of the data-parallel batch path",
         "needs": ["harness", "cli"],
-        "parts": [ktmc("C12"), ktmc("C12batch"), lambda tier: __import__("hist").c_env_cpus(tier, ['kcgr'])],
+        "parts": [ktmc("C12"), ktmc("C12batch"), lambda tier: __import__("hist").c_env_cpus(tier, ['kcgr']), lambda tier: __import__("hist").c_sink_fifo(tier, ['kcgr'])],
         "rule": "k 1..=7 x 5 square sizes x norm/raw: every string over {A,C,G,T,N} up to the stated length (k<=3) or "
                 "a structured family (k 4..=7): one triple per canonical column in rank order, coordinates bit-exact "
                 "= chaos-game end point of the column's k-mer text, frequency identical to the oligo vector and to "
@@ -169,7 +169,7 @@ PROPS.update({
         "engine": "ktmc-sched",
         "technique": "stateless controlled-scheduler exploration of worker interleavings (iterative preemption bounding) plus exhaustive configuration lattice",
         "needs": ["harness", "cli"],
-        "parts": [ktmc("C05sched"), ktmc("C05cfg"), ktmc("C04batch"), lambda tier: __import__("hist").c_env_threads(tier, ["oligo"]), lambda tier: __import__("hist").c_env_cpus(tier, ['oligo'])],
+        "parts": [ktmc("C05sched"), ktmc("C05cfg"), ktmc("C04batch"), lambda tier: __import__("hist").c_env_threads(tier, ["oligo"]), lambda tier: __import__("hist").c_env_cpus(tier, ['oligo']), lambda tier: __import__("hist").c_sink_fifo(tier, ['oligo-c'])],
         "rule": "schedules: depth-first exploration by re-execution of every interleaving of the real mmap worker loop "
                 "(N=2 and the small N=3 case unbounded, larger N=3 and N=4 up to the stated preemption bound) over 2-6 "
                 "records with pairwise different rows, at the default and at small batch-memory limits; oracle per schedule: output bytes = rows in input order; observed record->worker assignments "
@@ -219,7 +219,7 @@ PROPS.update({
         "engine": "ktmc-sched",
         "technique": "stateless controlled-scheduler exploration of the s2m / m2s worker interleavings plus exhaustive configuration enumeration",
         "needs": ["harness", "cli"],
-        "parts": [ktmc("C10sched"), ktmc("C10cfg"), lambda tier: __import__("hist").c_env_cpus(tier, ['s2m', 'm2s'])],
+        "parts": [ktmc("C10sched"), ktmc("C10cfg"), lambda tier: __import__("hist").c_env_cpus(tier, ['s2m', 'm2s']), lambda tier: __import__("hist").c_sink_fifo(tier, ['s2m', 'm2s'])],
         "rule": "schedules: every interleaving (N=2 unbounded where feasible, N=3 preemption-bounded) of seq_to_min and "
                 "bin_sequences workers over 2-3 records sharing minimisers (m=2, w=0 and w=3); oracle per schedule: "
                 "s2m = one line per record with the model's runs (multiset of lines), m2s = exact inversion of the "
@@ -299,7 +299,7 @@ PROPS.update({
         "engine": "hist",
         "needs": ["harness", "cli"],
         "technique": "explicit-state breadth-first search over on-disk states with the real subcommands as the transition function",
-        "parts": [hist_part("c17"), hist_part("c17_devices")],
+        "parts": [hist_part("c17"), hist_part("c17_devices"), hist_part("c17_interrupted")],
         "rule": "states = canonical content of the shared output location; transitions = real runs from an alphabet of "
                 "4-8 runs per output kind (different inputs, k, threads, writer paths, memory ceilings that leave "
                 "temp files of larger chunk x partition grids); search from the empty location and from a location "
